@@ -27,6 +27,11 @@
 (assert (forall ((x Int)) (! (= (blen (be32 x)) 4) :pattern ((be32 x)))))
 (assert (forall ((n Int)) (! (=> (>= n 0) (= (blen (zeros n)) n)) :pattern ((zeros n)))))
 (assert (forall ((a (Array Int Int)) (o Int) (n Int)) (! (=> (>= n 0) (= (blen (bs a o n)) n)) :pattern ((bs a o n)))))
+; zero padding: n zero bytes; prepending a zero byte; leading zeros do not change the big-endian value
+(assert (= (zeros 0) bempty))
+(assert (forall ((n Int)) (! (=> (>= n 0) (= (cat (single 0) (zeros n)) (zeros (+ n 1)))) :pattern ((cat (single 0) (zeros n))))))
+(assert (forall ((n Int) (s BStr)) (! (=> (>= n 0) (= (cat (single 0) (cat (zeros n) s)) (cat (zeros (+ n 1)) s))) :pattern ((cat (single 0) (cat (zeros n) s))))))
+(assert (forall ((n Int) (s BStr)) (! (=> (>= n 0) (= (beint (cat (zeros n) s)) (beint s))) :pattern ((cat (zeros n) s)))))
 (assert (forall ((a (Array Int Int)) (o Int)) (! (= (bs a o 0) bempty) :pattern ((bs a o 0)))))
 (assert (forall ((a BStr)) (! (= (cat a bempty) a) :pattern ((cat a bempty)))))
 (assert (forall ((a BStr)) (! (= (cat bempty a) a) :pattern ((cat bempty a)))))
@@ -166,3 +171,7 @@
 (declare-fun msgfrom (Iface) Int)
 (declare-fun msgvalid (Iface) Bool)
 (declare-fun cvalid (Iface) Bool)
+
+; ----- signature verification predicates (crypto/ecdsa.Verify, edwards.Verify): curve, public key, message bytes, r, s -----
+(declare-fun ecdsaverify (Iface Int Int BStr Int Int) Bool)
+(declare-fun eddsaverify (Iface Int Int BStr Int Int) Bool)
